@@ -150,6 +150,25 @@ def gen_layout_chain(rng, ndim, nlay, ndist):
     return out
 
 
+def layouts_connected(orders, nprocs):
+    """The documented semantics of a layout handler: two orderings are one step apart when
+    they differ in at most one *distributed* position; a set is acceptable when this graph
+    is connected.  Used to decide whether a constructor exception is a legitimate refusal
+    (whatever its type or message) or the rejection of valid input."""
+    n = len(orders)
+    dist = [i for i, p in enumerate(nprocs) if p > 1]
+    adj = [[sum(1 for i in dist if orders[a][i] != orders[b][i]) < 2 for b in range(n)] for a in range(n)]
+    seen = {0}
+    todo = [0]
+    while todo:
+        a = todo.pop()
+        for b in range(n):
+            if adj[a][b] and b not in seen:
+                seen.add(b)
+                todo.append(b)
+    return len(seen) == n
+
+
 LAYOUT_NAMES = ['alpha', 'bravo', 'charlie', 'delta', 'echo', 'foxtrot', 'golf', 'hotel']
 
 
